@@ -47,6 +47,10 @@ CLAIMED = {
          "Machine-checked proof (Coq 8.16): for EVERY request (method, media type, header validity, body validity) and every handler outcome the application code runs at most once and only if the method is POST, the content type is one that kind supports and the headers decode; refusals are 405 (with Allow: POST), 415, 400 in that precedence; an undecodable unary body gives InvalidArgument with an error status and the application code is not reached; the JSON and protobuf encodings of a unary request are handled identically; a streaming reply that was started is data* followed by exactly one trailer frame, a refused one has no frames; JSON is not accepted for streams (obligation on the generated content types). Tied to the code by a request grammar (11 methods, 21 content types incl. parameters/case/garbage, -bin headers with valid and invalid base64, odd GRPC-Timeout values incl. empty, 11 bodies incl. JSON with unknown fields and wrong types) through HandleMethod/HandleStream with a recorder and through the Server's mux for unknown paths (404), observing status, Allow, X-GRPC-Status, the invocation counter and the reply's frame structure; recover() around every call.",
          "Trusted: Coq kernel; go2coq for the content-type constants; mime.ParseMediaType, base64 and the protobuf/JSON codecs are oracle inputs computed with the real libraries; net/http's ResponseRecorder stands for the wire.",
          "7/C11"),
+ "C18": ("Coq theorems over the four adapters on messages with identity (forest values with locations, fresh-location copy) + mutation probes on the real adapters over generated, well-known and dynamic messages",
+         "Machine-checked proof (Coq 8.16): for all four strategies, every message of any shape and size and every pre-populated destination, a successful Copy yields a destination equal to the source, keeping its own identity, holding nothing of its previous content and sharing no memory with the source; a successful Clone is equal, of the same type and disjoint; the previous content of a destination never influences the result; a destination of another message type and a pointer to a non-protobuf value are refused (not copied shallowly); generated and dynamic representations of one type copy into each other for the default, codec and copy-function strategies. Stated exceptions, each a refuted theorem and a known finding reproduced on the real code: F20 (codec Copy into a wire-compatible other type), F18 (Clone of a dynamic message through CopyFunc/CodecCloner panics), F22 (with a dynamic message on either side the non-codec strategies share byte memory and drop unknown fields: behaviour of the third-party dynamic library's merge), F23 (CloneFunc.Copy between dynamic messages of different types). Tied to the code by running Clone and Copy of all four adapters over 8 message kinds (test Message, HttpTrailer, StringValue, BytesValue, Any, Empty with unknown fields, two dynamic kinds; random population incl. maps, repeated Any, bytes, unknown fields) into pre-populated destinations of every kind, with proto.Equal, source snapshots and an in-place mutation probe in both directions through the reflection API.",
+         "Trusted: Coq kernel; the protobuf runtime's Clone/Merge/Unmarshal are modelled by the reference deep copy (lib/Heap.v) and exercised, not proved; whether another type's parser accepts given bytes is an oracle input; the mutation probe's coverage of a message's mutable parts.",
+         "7/C18"),
  "C14": ("Coq theorems over tables regenerated from codes.go by a Go-AST translator + exhaustive differential/correspondence run",
          "Machine-checked proof (Coq 8.16): the code->HTTP and HTTP->code tables and the renderer guard are regenerated from /repo's source on every run and the theorems (documented table, error status for every non-OK code over all of Z, the 499 rule, recovery of every uint32 code through the %d/ParseInt/int32 round trip, OK iff 2xx for every integer status) are re-proved against them; the hand-written glue (header precedence) is tied to the code by running real server, real client and loopback end-to-end calls on all codes 0..40, boundary and random uint32 codes, and all HTTP statuses 100..599.",
          "Trusted: Coq kernel; the go2coq translator (differentially tested on every run against the real functions); the model of fmt %d / strconv.ParseInt (lib/Dec.v); net/http's handling of the status header on loopback is observed, not proved.",
